@@ -3,6 +3,7 @@ From Coq Require Import List Arith NArith Bool.
 From AV Require Import Base.ITree Model.D00 Model.D01 Model.D04 Model.D06 Model.D07.
 From AV Require Import Base.ITree Model.D00 Model.D01.
 From AV Require Import Model.D02.
+From AV Require Import Model.D03.
 Import ListNotations.
 
 Definition dispatch (prop op : nat) (t : itree) : itree :=
@@ -13,5 +14,6 @@ Definition dispatch (prop op : nat) (t : itree) : itree :=
   | 6 => d06 op t
   | 7 => d07 op t
   | 2 => d02 op t
+  | 3 => d03 op t
   | _ => bad_input
   end.
